@@ -1,6 +1,7 @@
 package wh
 
 import (
+	"time"
 	"fmt"
 	"sort"
 	"sync"
@@ -165,7 +166,7 @@ func Search(o SearchOpts) (int, int64) {
 	// On the single-connection SQL store a leaked transaction blocks every
 	// later call forever: calls run under a watchdog there (not when a custom
 	// DoFn drives the request through other layers).
-	cfg.Guard = o.Store == "sql" && o.DoFn == nil
+	cfg.Guard = o.Store == "sql"
 	var storeBlocked atomic.Bool
 	id := o.Log.ID()
 	states := map[string]*stateRec{"⊥": {key: "⊥", paths: [][]Req{{}}}}
@@ -285,7 +286,17 @@ func Search(o SearchOpts) (int, int64) {
 						t0 := ClockNow()
 						var out Outcome
 						var aux any
-						if o.DoFn != nil {
+						if o.DoFn != nil && cfg.Guard {
+							// a request driven through other layers (HTTP handler): same watchdog
+							done := make(chan struct{})
+							go func() { defer close(done); out, aux = o.DoFn(e, r) }()
+							select {
+							case <-done:
+							case <-time.After(60 * time.Second):
+								e.Blocked = true
+								out, aux = Outcome{Class: Blocked, Err: ErrBlocked}, nil
+							}
+						} else if o.DoFn != nil {
 							out, aux = o.DoFn(e, r)
 						} else {
 							out = e.Do(r)
